@@ -29,7 +29,7 @@ man = dict(
         guard="verif",
         enable="harness commands are built with `go build -tags verif` (GOFLAGS=-mod=mod GOPROXY=off GOEXPERIMENT=synctest) from /verif/harness, whose go.mod replaces example.com/scion-time by /repo",
         baseline_off_cmd="cd /repo && GOFLAGS=-mod=mod GOPROXY=off go test -json -vet=off -count=1 -timeout 25m ./...",
-        source_commits=HOOK_COMMITS if (HOOK_COMMITS := [l.strip() for l in open(os.path.join(ROOT, "HOOK_COMMITS.txt")) if l.strip() and not l.startswith("#")]) is not None else [],
+        source_commits=HOOK_COMMITS if (HOOK_COMMITS := [l.split()[0] for l in open(os.path.join(ROOT, "HOOK_COMMITS.txt")) if l.strip() and not l.startswith("#")]) is not None else [],
         add_only=True,
     ),
     engines=[dict(name="coq-model+correspondence", path="check",
